@@ -30,12 +30,12 @@ def _late():
     import copy
 
     from .. import gen
-    from .c05 import CTYPES, SweepFamily, base_scenario
+    from .c05 import SweepFamily, base_index, base_scenario
 
     class SharedSweep(SweepFamily):
         def make_base(self, bseed, bi):
             ct = ["h2tls", "h2pk", "tun_h2", "socks_auth_h2"][bi % 4]
-            b = base_scenario(bseed, 22 + CTYPES.index(ct), self.ex)     # company "shared"
+            b = base_scenario(bseed, base_index(ct, "shared"), self.ex)     # company "shared"
             r = gen.mk_rng(bseed, "c01shared")
             for cfg in b["net"]["endpoints"].values():
                 if "h2" in cfg:
